@@ -342,6 +342,44 @@ def gen_filter(rng, allow_none=True):
     return inc, exc
 
 
+def same_length_sibling(rng, data, words):
+    """An input of exactly the same length whose keyword content differs: one
+    word that occurs in data is replaced by another word of the same length (or
+    by a non-word).  Fixed-width records look like this."""
+    present = [w for w in sorted(set(words)) if w and w in data]
+    if not present:
+        return None
+    w = rng.choice(present)
+    same = [x for x in sorted(set(words)) if len(x) == len(w) and x.lower() != w.lower()]
+    repl = rng.choice(same) if same and rng.random() < 0.7 else (w[:-1] + (b"Q" if w[-1:] != b"Q" else b"Z"))
+    out = data.replace(w, repl)
+    return out if len(out) == len(data) and out != data else None
+
+
+def layout_variant(rng, layout):
+    """The same files (paths, sizes) with one keyword replaced by another of
+    the same length.  Returns (variant, old_word, new_word) or None."""
+    files = [f for f in layout["files"] if model.split_lines(bytes.fromhex(f["content"]))]
+    if not files:
+        return None
+    f = rng.choice(files)
+    content = bytes.fromhex(f["content"])
+    lines = sorted(model.split_lines(content))
+    w = rng.choice(lines)
+    if len(w) < 2:
+        return None
+    new = bytes(reversed(w)) if bytes(reversed(w)).lower() != w.lower() else (w[:-1] + (b"q" if w[-1:] != b"q" else b"z"))
+    if b"\n" in new or b"\r" in new or new.strip() != new or new in lines:
+        return None
+    var = {"dirs": list(layout["dirs"]), "files": [dict(x) for x in layout["files"]]}
+    for x in var["files"]:
+        if x["path"] == f["path"]:
+            x["content"] = content.replace(w, new).hex()
+    if model.layout_model(var) == model.layout_model(layout):
+        return None
+    return var, w, new
+
+
 # --------------------------------------------------------------------------
 # C09
 
@@ -359,8 +397,22 @@ def gen_c09(seed, shipped, tier="quick"):
         hot = layout_collisions(kw)
         words = layout_words(kw)
     inc, exc = (None, None) if rng.random() < 0.7 else gen_filter(rng)
+    variants = []
+    if not use_shipped and rng.random() < 0.3:
+        v = layout_variant(rng, kw)
+        if v:
+            variants.append(v[0])
+            hot = sorted(set(hot) | {v[1], v[2]})  # both spellings occur in the inputs
+            words = sorted(set(words) | {v[1], v[2]})
     ncorp = rng.choice([1, 1, 2, 2, 3, 4])
     corpus = [gen_input(rng, words, hot, exotic=rng.random() < 0.2, bulk=rng.random() < 0.1, sizes=[4200, 4200, 5000, 9000]) for _ in range(ncorp)]
+    sibling = None
+    if rng.random() < 0.35:
+        sib = same_length_sibling(rng, corpus[0], list(words) + list(hot))
+        if sib is not None:
+            corpus.append(sib)
+            sibling = len(corpus) - 1
+            ncorp = len(corpus)
     ascii_labels = use_shipped or all(ord(ch) < 128 for f in kw["files"] for ch in f["path"])
     keys = []
     for _ in range(rng.randint(1, 3)):
@@ -371,6 +423,11 @@ def gen_c09(seed, shipped, tier="quick"):
             # a shallow result that is too deep (or the reverse), depending on the order
             ks = [[i, 10], [i, rng.choice([1, 1, 2, 3])]]
         for k in ks:
+            if k not in keys:
+                keys.append(k)
+    if sibling is not None:
+        d = rng.choice([1, 2, 10, 10])
+        for k in ([0, d], [sibling, d]):
             if k not in keys:
                 keys.append(k)
     # the pristine world scans shallow limits first; other worlds use any order
@@ -384,6 +441,10 @@ def gen_c09(seed, shipped, tier="quick"):
     h0 = rng.choice([0, 1, rng.randrange(1 << 32)])
     pristine_ops = [["new", "s0"]] + [["scan", "s0", i, d] for i, d in keys] + [["cli", m, "stdin", i] for m, i in cli_keys]
     worlds.append({"hashseed": h0, "enum_seed": 0, "io_seed": 0, "env_seed": 0, "io": {"chunk": "full"}, "env": {"LC_ALL": None, "opt": ""}, "ops": pristine_ops})
+    if variants:
+        # a second pristine world: the variant configuration from the start
+        worlds.append({"hashseed": h0, "enum_seed": 0, "io_seed": 0, "env_seed": 0, "io": {"chunk": "full"}, "env": {"LC_ALL": None, "opt": ""},
+                       "config_idx": 1, "ops": [list(o) for o in pristine_ops]})
     for wi in range(1, nworlds):
         h = rng.choice([0, 1, 2, 3, rng.randrange(1 << 32), rng.randrange(1 << 32), h0])
         e = rng.choice([0, rng.randrange(1, 1 << 30), rng.randrange(1, 1 << 30), rng.randrange(1, 1 << 30)])
@@ -398,14 +459,19 @@ def gen_c09(seed, shipped, tier="quick"):
             if r < 0.35:
                 ops.append(["scan", s, i, d])
                 nres += 1
-            elif r < 0.42:
+            elif r < 0.40:
                 ops.append(["scan_node", s, i, d])
                 nres += 1
+            elif r < 0.44:
+                ops.append(["scan_fresh", s, i, d])
             elif r < 0.62:
                 nt = rng.choice([2, 2, 3, 4])
                 jobs = [list(rng.choice(keys)) for _ in range(nt)]
                 if rng.random() < 0.4:
-                    jobs = [jobs[0]] * nt  # same input in every thread
+                    jobs = [list(jobs[0]) for _ in range(nt)]  # same input in every thread
+                for j in jobs:
+                    if rng.random() < 0.25:
+                        j.append("node")  # this thread enters through scan_node() on a node it built
                 ops.append(["par_scan", s, jobs, sched_spec(rng, use_shipped)])
                 nres += nt
             elif r < 0.72 and nres:
@@ -432,6 +498,25 @@ def gen_c09(seed, shipped, tier="quick"):
         if not any(o[0] in ("scan", "scan_node", "par_scan") for o in ops):
             i, d = rng.choice(keys)
             ops.append(["scan", "s0", i, d])
+        if sibling is not None and rng.random() < 0.6:
+            # fixed-width records processed one after the other, each buffer dropped before the next
+            d = next(k[1] for k in keys if k[0] == sibling)
+            order = [0, sibling] if rng.random() < 0.5 else [sibling, 0]
+            seq = []
+            for _ in range(rng.randint(1, 3)):
+                for idx in order:
+                    seq.append(["scan_fresh", "s0", idx, d])
+                    if rng.random() < 0.7:
+                        seq.append(["gc"])
+            ops.extend(seq)
+        if variants and rng.random() < 0.7:
+            # the keyword files are replaced in place (same size, same timestamps); registries built afterwards
+            at = rng.randint(1, len(ops))
+            sidn = "s%d" % (len(scanners) + 1)
+            i2, d2 = rng.choice(keys)
+            ops[at:at] = [["set_config", 1], ["new", sidn], ["scan", sidn, i2, d2]]
+            if rng.random() < 0.5:
+                ops.append(["cli", "json", "stdin", i2]) if cli_ok else None
         if cli_keys and not any(o[0] == "cli" for o in ops):
             m, ci = rng.choice(cli_keys)
             ops.insert(rng.randint(1, len(ops)), ["cli", m, rng.choice(["stdin", "file"]), ci])
@@ -443,11 +528,11 @@ def gen_c09(seed, shipped, tier="quick"):
             "lib_sched": lib_sched_spec(rng),
             "ops": ops,
         })
-        if ascii_labels:
-            # with ASCII labels every CLI mode writes pure ASCII, so the bytes may not depend on the stream encoding
-            worlds[-1]["io"]["stdout_encoding"] = rng.choice(["utf-8", "utf-8", "latin-1", "ascii", "cp1252", "iso8859-15"])
+        # --json and --replace write pure ASCII / raw bytes whatever the labels; the default mode does so
+        # when the labels are ASCII (world.py does not apply the knob otherwise)
+        worlds[-1]["io"]["stdout_encoding"] = rng.choice(["utf-8", "utf-8", "latin-1", "ascii", "cp1252", "iso8859-15"])
     return {"property": "C09", "seed": seed,
-            "config": {"keywords": kw, "include": inc, "exclude": exc},
+            "config": {"keywords": kw, "include": inc, "exclude": exc, "variants": variants, "ascii_labels": bool(ascii_labels)},
             "corpus": [c.hex() for c in corpus], "worlds": worlds}
 
 
@@ -522,10 +607,14 @@ def gen_c20(seed, shipped, tier="quick", faults=None):
         mode = rng.choice(["json", "json", "default", "default", "replace"])
         knobs = io_knobs(rng)
         knobs["line_buffering"] = rng.random() < 0.2
-        run = {"mode": mode, "short": rng.random() < 0.3, "source": rng.choice(["file", "stdin"]),
+        run = {"mode": mode, "short": rng.random() < 0.3, "source": rng.choice(["file", "file", "stdin", "stdin", "fifo"]),
                "flag_last": rng.random() < 0.2, "seed": rng.randrange(1 << 30), "knobs": knobs}
         if mode == "json" and rng.random() < 0.6:
             run["corrupt"] = {"seed": rng.randrange(1 << 30)}
+        ascii_names = layout is None or all(ord(ch) < 128 for f in layout["files"] for ch in f["path"])
+        if mode != "default" or ascii_names:
+            # --json is pure ASCII and --replace raw bytes whatever the labels; the default rendering is ASCII when the labels are
+            knobs["stdout_encoding"] = rng.choice(["utf-8", "utf-8", "latin-1", "ascii", "cp1252"])
         if faults and rng.random() < 0.6:
             r = rng.random()
             if r < 0.3:
